@@ -48,7 +48,7 @@ fn compile_one_of_int__membership_n2() {
     let want = (lo[0] <= x && x <= hi[0]) || (lo[1] <= x && x <= hi[1]);
     unsafe {
         assert!(REC_CALLS == 1 && REC_VEC_CALLS == 0);
-        assert!(REC_RESULT == Some(want), "n in {..} <=> some listed item equals or contains n");
+        assert!(REC_RESULT == Some(want), "n in the brace list <=> some listed item equals or contains n");
         assert!(REC_DEFAULT == Some(false), "absent n: false");
     }
     kani::cover!(want && lo[0] > lo[1]);
